@@ -97,8 +97,11 @@ class Pre:
                           z3.And(t >= 0, t < v['size'], z3.Select(v['val'], t) != 0))
 
 
+CMP = {'eq': '==', 'ne': '!=', 'gt': '>', 'lt': '<', 'ge': '>=', 'le': '<='}
+
+
 def spec_binary(op, kind, inplace):
-    """Contract of SparseVector._{i}{op}_{kind}; returns dict with builders."""
+    """Contract of SparseVector._{i}{op}_{kind}; returns dict with builders.  op in add/sub/mul/truediv or a comparison."""
     def build():
         p = Pre(kind)
         p.vec('self')
@@ -127,7 +130,7 @@ def spec_binary(op, kind, inplace):
         osize = p.osize
         same = size == osize
         selfb = z3.And(size == 1, osize != 0)            # self broadcast to other's length
-        otherb = (osize == 1) if kind == 'sparse' else z3.BoolVal(False)
+        otherb = (osize == 1) if (kind == 'sparse' or op in ('eq', 'ne')) else z3.BoolVal(False)
         ok = z3.Or(same, selfb, otherb)
         n = z3.If(same, size, z3.If(selfb, osize, size))
         ai = lambda k: z3.If(z3.And(z3.Not(same), selfb), z3.IntVal(0), k)
@@ -167,6 +170,33 @@ def spec_binary(op, kind, inplace):
         n, ok, ai, bi = shape(p)
         res = out.value
         cl = []
+        if op in CMP:
+            if not isinstance(res, SLV):
+                return [('returns a SparseLogicalVector', z3.BoolVal(False))]
+            f = out.heap.objs[res.oid]
+            rset = out.heap.sets[f['dct'].oid]
+            sget = lambda k: dense(p.vecs['self']['dom'], p.vecs['self']['val'], k)
+            a, b = sget(ai(k)), p.oget(bi(k))
+            expect = {'eq': a == b, 'ne': a != b, 'gt': a > b, 'lt': a < b, 'ge': a >= b, 'le': a <= b}[op]
+            cl.append(('shape accepted', ok))
+            cl.append(('result size = broadcast size', f['size'] == n))
+            cl.append(('member k <=> dense(self)[k] %s dense(other)[k]' % CMP[op],
+                       z3.Implies(z3.And(k >= 0, k < n), z3.Select(rset, k) == expect)))
+            cl.append(('stored indices inside the size', z3.Implies(z3.Select(rset, k), z3.And(k >= 0, k < n))))
+            s_ = p.vecs['self']
+            sdom, sval = out.heap.dicts[s_['dict'].oid]
+            cl.append(('frame: self unchanged',
+                       z3.And(z3.Select(sdom, k) == z3.Select(s_['dom'], k),
+                              z3.Implies(z3.Select(sdom, k), z3.Select(sval, k) == z3.Select(s_['val'], k)),
+                              out.heap.objs[s_['ref'].oid]['size'] == s_['size'])))
+            if kind == 'sparse':
+                o = p.vecs['other']
+                odom, oval = out.heap.dicts[o['dict'].oid]
+                cl.append(('frame: other operand unchanged',
+                           z3.And(z3.Select(odom, k) == z3.Select(o['dom'], k),
+                                  z3.Implies(z3.Select(odom, k), z3.Select(oval, k) == z3.Select(o['val'], k)),
+                                  out.heap.objs[o['ref'].oid]['size'] == o['size'])))
+            return cl
         if not isinstance(res, SV):
             return [('returns a SparseVector', z3.BoolVal(False))]
         f = out.heap.objs[res.oid]
@@ -210,12 +240,25 @@ def spec_binary(op, kind, inplace):
                 params=['self', 'other'])
 
 
+def template_source(func_name):
+    """Source text of an exec-generated method: the template string of /repo formatted with the arguments used there."""
+    import sys
+    sp = sys.modules['thermosteam.base.sparse']
+    for nm, sign in CMP.items():
+        if func_name in (f'_{nm}_sparse', f'_{nm}_scalar', f'_{nm}_array') and nm in ('gt', 'lt', 'ge', 'le'):
+            return sp.sparse_vector_comparison_math.format(name=nm, sign=sign)
+    return None
+
+
 def verify(func, spec, name, source=None, timeout_ms=TIMEOUT_MS):
     """Returns a result dict: obligations [(name, verdict)], counterexamples, paths, seconds."""
     t0 = time.time()
     res = {'function': name, 'obligations': [], 'paths': 0, 'unsupported': None, 'cex': [], 'solver_s': 0.0}
     try:
-        fdef, src = core.get_function_ast(func, source)
+        short = name.rsplit('.', 1)[-1]
+        if source is None:
+            source = template_source(short)
+        fdef, src = core.get_function_ast(func, source, short)
         p = spec['build']()
         ex = Exec(fdef, getattr(func, '__globals__', {}), None)
         env = {a.arg: p.env[a.arg] for a in fdef.args.args}
@@ -278,6 +321,10 @@ def verify(func, spec, name, source=None, timeout_ms=TIMEOUT_MS):
         if feasible(hyps) == z3.unsat:
             continue     # infeasible path
         feasible_returns += 1
+        # cover / canary: the wrong clause "no index is in range" must be refuted on some path (non-vacuity of the forall-k clauses)
+        if isinstance(out.value, (SV, SLV)) and not res.get('covered'):
+            if feasible(hyps + [k >= 0, k < out.heap.objs[out.value.oid]['size']]) == z3.sat:
+                res['covered'] = True
         for cname, clause in spec['ensures'](p, out, k):
             r, m = check(hyps, clause)
             verdict = 'unsat' if r == z3.unsat else ('sat' if r == z3.sat else 'unknown')
@@ -308,6 +355,8 @@ def verify(func, spec, name, source=None, timeout_ms=TIMEOUT_MS):
         if m is not None: res['cex'].append(('internal: divisor non-zero', m))
     if feasible_returns == 0:
         res['obligations'].append(('vacuity: at least one feasible normal return', 'sat'))
+    if not res.get('covered') and spec.get('needs_cover', True):
+        res['obligations'].append(('vacuity: some index of the result is reachable (canary)', 'sat'))
     res['pre'] = p
     res['wall_s'] = time.time() - t0
     return res
@@ -390,9 +439,10 @@ def native_check(name, desc, inputs):
     else:
         b = inputs['other']['scalar']; b0 = np.float64(b)
     failed = []
-    npop = {'add': np.add, 'sub': np.subtract, 'mul': np.multiply, 'truediv': np.divide}[op]
+    npop = {'add': np.add, 'sub': np.subtract, 'mul': np.multiply, 'truediv': np.divide, 'eq': np.equal, 'ne': np.not_equal,
+            'gt': np.greater, 'lt': np.less, 'ge': np.greater_equal, 'le': np.less_equal}[op]
     sa, sb = len(a0), (np.size(b0) if kind != 'scalar' else None)
-    ok = True if kind == 'scalar' else (sa == sb or (sa == 1 and sb != 0) or (kind == 'sparse' and sb == 1))
+    ok = True if kind == 'scalar' else (sa == sb or (sa == 1 and sb != 0) or ((kind == 'sparse' or op in ('eq', 'ne')) and sb == 1))
     try:
         r = getattr(a, name)(b)
     except ValueError as e:
@@ -406,6 +456,14 @@ def native_check(name, desc, inputs):
         expect = npop(a0, b0)
         if op == 'truediv':
             expect = np.where(np.broadcast_to(a0, np.shape(expect)) == 0, 0., expect)
+    if op in CMP:
+        if not isinstance(r, sp.SparseLogicalVector): return ['returns a SparseLogicalVector']
+        got = r.to_array()
+        if got.shape != np.shape(expect) or not np.array_equal(got, expect):
+            failed.append(f'member k <=> comparison of dense images (got {got.tolist()}, NumPy {np.asarray(expect).tolist()})')
+        if any(not (0 <= k < r.size) for k in r.set): failed.append('stored indices inside the size')
+        if not np.array_equal(a.to_array(), a0): failed.append('frame: self unchanged')
+        return failed
     got = r.to_array()
     if got.shape != np.shape(expect) or not np.allclose(got, expect, rtol=1e-9, atol=1e-12, equal_nan=False):
         failed.append(f'dense image = operator on dense images (got {got.tolist()}, NumPy {np.asarray(expect).tolist()})')
